@@ -118,6 +118,34 @@ class Capture:
         return t
 
 
+def opt_kwargs(op, opt):
+    """keyword arguments of the documented optional-argument deviation named by Configs.tla's cfg.opt for the routine behind op"""
+    if opt in (None, "default"):
+        return {}
+    dm = op in ("fast_matvec", "dmrg_hadamard")
+    cross = op in ("dmrg_cross", "interp_uni", "interp_multi")
+    div = op in ("elementwise_divide", "elementwise_divide_c")
+    if opt == "verbose": return {"verb": True} if dm else {"verbose": True}
+    if opt == "nswp40": return {"nswp": 40}
+    if opt == "kick1": return {"kick": 1} if div else {"kickrank": 1}
+    if opt == "kick22": return {"kickrank": 2, "kick2": 2}
+    if opt == "iters": return {"local_iterations": 10, "resets": 8}
+    if opt == "rmax64": return {"rmax": 64}
+    if opt == "band1": return {"band_diagonal": 1}
+    if opt == "band2": return {"band_diagonal": 2}
+    raise KeyError(opt)
+
+
+class quiet:
+    """the verbose variants print; what they print is not part of any claim"""
+    def __enter__(self):
+        import io, contextlib
+        self.cm = contextlib.redirect_stdout(io.StringIO()); self.cm.__enter__(); return self
+
+    def __exit__(self, *a):
+        return self.cm.__exit__(*a)
+
+
 def dense_op(A):
     """dense operator as a matrix prod(M) x prod(N)"""
     D = project.dense(A.cores)
@@ -136,6 +164,8 @@ def mk_problem(prop, cls, cfg, msg, st, extra=None):
     for k in ("prec", "solver", "maxfull", "sys"):
         if k in cfg:
             key[k] = cfg[k]
+    if cfg.get("opt", "default") != "default":
+        key["opt"] = cfg["opt"]
     key.update(extra or {})
     return {"prop": prop, "cls": cls, "op": cfg["op"], "key": key, "msg": "%s %s: %s" % (cfg["op"], {k: v for k, v in cfg.items() if k != "op"}, msg),
             "replay": {"engine": "vf.g3run", "state": st}}
@@ -231,6 +261,7 @@ def run_product(st, opts):
     allnames = names + (["guess"] if g is not None and g is not ops[1] else [])
 
     kw = {"nswp": int(cfg["guess"][-1])} if cfg["guess"] in ("exact1", "exact2") else {}
+    kw.update(opt_kwargs(op, cfg.get("opt")))
 
     def call():
         if op == "fast_matvec":
@@ -248,7 +279,7 @@ def run_product(st, opts):
         stats["calls"] += 1
         cap = Capture("dmrg" if op in ("fast_matvec", "dmrg_hadamard") else "amen", active=not use_cpp)
         try:
-            with cap:
+            with cap, quiet():
                 Y = call()
         except Exception as ex:  # noqa
             problems.append(mk_problem("C11", "exception", cfg, "call %d raised %s: %s" % (it + 1, type(ex).__name__, str(ex)[:200]), st, {"exc": type(ex).__name__}))
